@@ -624,7 +624,9 @@ func C05(tier string) int {
 		// three entities on one side (an entry in the middle of a link bucket; delete with three links)
 		run(newLinkScenario("links 2x3", a2, []string{"b1", "b1x", "b2"}, true, false, 0), 0)
 		setLinksExhaustive(rep, 3)
+		c05ChildOwned(rep)
 	} else {
+		c05ChildOwned(rep)
 		run(newLinkScenario("links 2x3", a2, []string{"b1", "b1x", "b2"}, true, false, 0), 0)
 		run(newLinkScenario("ref-counted 2x2 counts<=3", a2, b2, false, true, 3), 0)
 		run(newLinkScenario("links+ref-counted 2x2 counts<=2", a2, b2, true, true, 2), 12_000_000)
@@ -673,4 +675,25 @@ func c05PairPrograms(ops []explore.Op) [][]int {
 		}
 	}
 	return out
+}
+
+// c05ChildOwned: link collections whose owner is a child store (and, next to it, one owned by the parent) -
+// creates and deletes through parent, plain child and extended child store, links added from the owning side and
+// removed from the other side; closure over that sub-alphabet of the kitchen-sink scenario.
+func c05ChildOwned(rep *report.Report) {
+	k := newKitchen("link collection owned by a child store", kFeat{places: true, childLinks: true, extFirst: true})
+	var progs [][]int
+	for i, o := range k.Ops() {
+		n := o.Name
+		switch {
+		case strings.HasPrefix(n, "create@") && strings.Contains(n, "roles=[],org=null") && !strings.Contains(n, "name=,"):
+		case strings.HasPrefix(n, "delete@"), strings.HasPrefix(n, "createPlace("), strings.HasPrefix(n, "deletePlace("):
+		case strings.HasPrefix(n, "people.AddLinks("), strings.HasPrefix(n, "places.RemoveLinks("), strings.HasPrefix(n, "mgr.AddLinks("), strings.HasPrefix(n, "places.RemoveMgrLinks("):
+		default:
+			continue
+		}
+		progs = append(progs, []int{i})
+	}
+	rep.Set("child_owned_link_alphabet", len(progs))
+	runE1(rep, k, explore.Config{Programs: progs})
 }
